@@ -157,11 +157,12 @@ CHECK_DEADLOCK FALSE
 '''
 
 
-def behaviours(profile, maxlen, maxrefuse=1, maxgen=1, simulate=None, depth=None, seed=0, timeout=900):
+def behaviours(profile, maxlen, maxrefuse=1, maxgen=1, simulate=None, depth=None, seed=0, timeout=900, every_step=False):
     """Exhaustive (every transition of the bounded graph, one history per transition) or simulated
     behaviours of MC_boot.  Returns (list of {h, exp}, stats)."""
     p = {'profile': profile, 'maxlen': maxlen, 'maxrefuse': maxrefuse, 'maxgen': maxgen,
-         'dump': 'final' if simulate else 'edges', 'dumper': 'DumpFinal' if simulate else 'DumpEdge'}
+         'dump': 'final' if simulate and not every_step else 'edges',
+         'dumper': 'DumpFinal' if simulate and not every_step else 'DumpEdge'}
     extra = []
     if simulate:
         extra = ['-depth', str(depth or maxlen + 1), '-seed', str(seed + 1)]
@@ -581,6 +582,8 @@ def facts(hist, cfgname, upto=None):
                 f.add('unlinked_boot_file_reopened')
             if any(e['vis'] == 'sec' for e in ents):
                 f.add('boot_file_without_iso_name_reopened')
+            if len(ents) == 32:
+                f.add('catalog_full')
             if hyb is not None:
                 f.add('hybrid_reopened')
                 if hyb['offset'] > 0 or hyb['sectors'] * hyb['heads'] == 1:
@@ -599,6 +602,8 @@ def facts(hist, cfgname, upto=None):
         else:
             last_edit = 'edit'
             f.discard('isohybrid_on_consistent_object')     # the edit marks the metadata stale
+    if len(ents) == 32:
+        f.add('catalog_full')          # validation + initial + 31 x (header + entry) = 64 slots = the whole sector
     if any(e['vis'] == 'sec' for e in ents):
         f.add('boot_file_without_iso_name')
     if any(e['vis'] == 'none' for e in ents):
@@ -728,6 +733,8 @@ def c11_circumstance(clause, hist, cfgname, item):
     fs = facts(hist, cfgname, div[0]['k'] - 1 if div else None)
     if clause == 'ApiOutcomeAsModelled':
         d = div[0]
+        if d['act'] == 'Reopen' and 'Invalid El Torito Boot Catalog entry' in d['got'] and 'catalog_full' in fs:
+            return 'catalog_full'
         if d['act'] == 'Reopen' and 'nonbootable_section_entry' in fs:
             return 'nonbootable_section_entry'
         if d['act'] == 'Reopen' and 'UDF Anchors' in d['got'] and 'udf_name_removed_after_reopen' in fs:
@@ -747,6 +754,8 @@ def c11_circumstance(clause, hist, cfgname, item):
         return 'after_rm_eltorito_with_unlinked_boot_file'      # the object is corrupt from there on
     if clause == 'Mastered':
         return ':'.join(item['expect']['master'].split(':')[:2])
+    if clause == 'ReadBackPossible' and 'Invalid El Torito Boot Catalog entry' in item.get('open_error', '') and 'catalog_full' in fs:
+        return 'catalog_full'
     if clause == 'ReadBackPossible' and 'nonbootable_section_entry' in fs:
         return 'nonbootable_section_entry'
     if clause == 'ReadBackPossible' and 'UDF Anchors' in item.get('open_error', ''):
@@ -804,27 +813,46 @@ def run(ctx):
         plan += [('c11q', 4, 1, 1, None, None, base_cfgs, 1100),
                  ('c11m', 2, 1, 0, None, None, ['plain', 'all'], 150),
                  ('c11s', 9, 2, 2, 40, 10, base_cfgs + ['jolrr'], 350),
-                 ('c11n', 36, 1, 1, 3, 37, ['plain', 'all'], 40)]
+                 ('c11n', 80, 2, 1, 1, 81, ['plain', 'all'], 70)]
     else:
         plan += [('c11q', 5, 1, 1, None, None, base_cfgs + ['jolrr'], 3000),
                  ('c11m', 3, 1, 1, None, None, ['plain', 'all'], 1200),
                  ('c11f', 3, 0, 1, None, None, ['plain', 'all'], 200),
                  ('c11t', 12, 2, 2, 300, 13, base_cfgs + ['jolrr'], 1200),
-                 ('c11n', 36, 1, 1, 20, 37, ['plain', 'udf', 'all'], 200)]
+                 ('c11n', 90, 2, 1, 5, 91, ['plain', 'udf', 'all'], 400)]
     stats_list = []
     tasks = []
     hists = []
     for (profile, maxlen, maxref, maxgen, sim, depth, cfgs, cap) in plan:
-        hs, st = behaviours(profile, maxlen, maxref, maxgen, simulate=sim, depth=depth, seed=ctx.seed)
+        # c11n (1..32 entries): every step of the simulated walks is a behaviour of its own
+        hs, st = behaviours(profile, maxlen, maxref, maxgen, simulate=sim, depth=depth, seed=ctx.seed,
+                            every_step=(profile == 'c11n'))
         stats_list.append(st)
         print('MC_boot %s: %s states generated, %s distinct, %d behaviours (%.1fs)' % (
             profile, st.get('generated'), st.get('distinct'), len(hs), st['wall_s']), flush=True)
-        if len(hs) > cap:
+        if profile == 'c11n' and len(hs) > cap:
+            # stratified by number of entries, so that 1..32 entries and the refused 33rd are all kept
+            groups = {}
+            for hh in hs:
+                key = (len(hh['exp']['entries']), any(st['why'] == 'too_many' for st in hh['h']))
+                groups.setdefault(key, []).append(hh)
+            per = max(1, cap // max(1, len(groups)))
+            hs = [hh for key in sorted(groups) for hh in rnd.sample(groups[key], min(per, len(groups[key])))]
+        elif len(hs) > cap:
             hs = rnd.sample(hs, cap)
         for hh in hs:
             hists.append(hh)
             for c in cfgs:
                 tasks.append((len(hists) - 1, c))
+    # two scripted behaviours the model answers as an oracle: a full catalog (32 entries) and the 33rd call
+    plain = {"media": "noemul", "load": 0, "bootable": True, "bit": False, "efi": False, "platform": 0, "seg": 0}
+    sec = dict(plain, efi=True, bit=True)
+    full = [{"a": "AddFile", "n": "I", "blob": "h2049"}, {"a": "AddEltorito", "f": "I", "spec": plain}] + \
+           [{"a": "AddEltorito", "f": "I", "spec": sec if k % 2 else plain} for k in range(31)]
+    for hh in oracle([full, full + [{"a": "AddEltorito", "f": "I", "spec": plain}]]):
+        hists.append(hh)
+        for c in ('plain', 'all'):
+            tasks.append((len(hists) - 1, c))
     finish_tlc(ctx, stats_list)
     t0 = det.real_time()
     results = run_all([(hists[i], c, False) for (i, c) in tasks])
@@ -864,6 +892,8 @@ def run(ctx):
                 '(decoded image report, read-back, expectation) triples judged by TLC',
         'bootable_observations': boot,
         'max_entries_observed': max([len(it['expect']['entries']) for it in items] or [0]),
+        'entry_counts_observed': sorted(set(len(it['expect']['entries']) for it in items)),
+        'refused_33rd_entry_observed': sum(1 for hh in hists for st in hh['h'] if st['why'] == 'too_many'),
         'configurations': sorted(set(c for (_, c) in tasks)),
         'judge_states': sum(s.get('generated', 0) for s in jstats),
         'exhaustive': False,
